@@ -150,14 +150,13 @@ impl<R: Read + Seek> ReadBox<&mut R> for DrefBox {
     fn read_box(reader: &mut R, size: u64) -> Result<Self> {
         let start = box_start(reader)?;
 
-        let mut current = reader.stream_position()?;
-
         let (version, flags) = read_box_header_ext(reader)?;
         let end = start + size;
 
         let mut url = None;
 
         let entry_count = reader.read_u32::<BigEndian>()?;
+        let mut current = reader.stream_position()?;
         for _i in 0..entry_count {
             if current >= end {
                 break;
@@ -206,7 +205,7 @@ impl<W: Write> WriteBox<&mut W> for DrefBox {
 
         write_box_header_ext(writer, self.version, self.flags)?;
 
-        writer.write_u32::<BigEndian>(1)?;
+        writer.write_u32::<BigEndian>(if self.url.is_some() { 1 } else { 0 })?;
 
         if let Some(ref url) = self.url {
             url.write_box(writer)?;
